@@ -219,7 +219,9 @@ class C04(Check):
         refs = [build_msg(s, i) for i, s in enumerate(scn["msgs"])]
         encs = [C.enc_msg(m) for m in refs]
         n = len(refs)
-        D = 3.0 + 4 * n * tick + w.world.knobs["TRACKING_SOCKET_EVENTS_TIMEOUT"]
+        # liveness bound: polling intervals plus the simulated CPU time the node
+        # needs to parse and tick through n messages (every step costs a quantum)
+        D = 3.0 + 4 * n * tick + w.world.knobs["TRACKING_SOCKET_EVENTS_TIMEOUT"] + n * 40000 * sim.quantum
         stats = {"split_msgs": 0, "coalesced": 0, "segments": 0, "delivered": 0, "opened": False}
         expected = [msg_key_ref(m) for m, s in zip(refs, scn["msgs"]) if s["kind"].startswith("app")]
 
